@@ -349,6 +349,193 @@ theorem timer_obj_reuse_breaks_ownership :
     (step (reuse (run {} [.arm 1 10, .expire 0, .cancel 0]) 0 2 20) (.doNext 1)).ran = [(1, 20)] := by decide
 end TimerObj
 
+/-! ## a stopped timer manager (`timer.Mgr.Stop`, first thing `StandardRunService.Stop` does) -/
+section TimerStop
+open Cell2v.TimerObj Cell2v.TimerStop
+
+/-- every step of the stop-aware model is a step of the base model or does nothing to it -/
+theorem timer_stop_good_step (s : TimerStop.St) (op : TimerStop.Op) (h : Good s.base) : Good (TimerStop.step s op).base := by
+  cases op with
+  | stopMgr m => exact h
+  | base o =>
+    cases o with
+    | expire a =>
+      simp only [TimerStop.step]
+      split
+      · exact h
+      · exact timer_good_step s.base (.expire a) h
+    | arm m c => exact timer_good_step s.base (.arm m c) h
+    | cancel a => exact timer_good_step s.base (.cancel a) h
+    | doNext m => exact timer_good_step s.base (.doNext m) h
+
+theorem timer_stop_good_run (ops : List TimerStop.Op) : ∀ s : TimerStop.St, Good s.base → Good (TimerStop.run s ops).base := by
+  induction ops with
+  | nil => intro s h; exact h
+  | cons o os ih => intro s h; exact ih _ (timer_stop_good_step s o h)
+
+/-- `timer_callbacks_on_owner` carries over to managers that are stopped at any point of the history -/
+theorem timer_stop_callbacks_on_owner (ops : List TimerStop.Op) (m c : Nat) (h : (m, c) ∈ (TimerStop.run {} ops).base.ran) :
+    ∃ a, a < (TimerStop.run {} ops).base.nobj ∧ (TimerStop.run {} ops).base.owner a = m ∧ (TimerStop.run {} ops).base.cb a = c :=
+  (timer_stop_good_run ops {} ⟨by intro m a h; simp at h, by intro m c h; simp at h⟩).2 m c h
+
+/-- the backlog of manager `m` plus what its loop has run -/
+def backlogAndRan (s : TimerStop.St) (m : Nat) : Nat := (s.base.queue m).length + ranOn s m
+
+/-- once `m` is stopped it stays stopped, and no step increases backlog + run count of `m` (an expiry of a stopped
+manager's object touches neither the queue nor `ran`) -/
+theorem timer_stop_step (s : TimerStop.St) (op : TimerStop.Op) (m : Nat) (hs : s.stopped m = true) :
+    (TimerStop.step s op).stopped m = true ∧ backlogAndRan (TimerStop.step s op) m ≤ backlogAndRan s m := by
+  cases op with
+  | stopMgr k =>
+    refine ⟨?_, Nat.le_refl _⟩
+    simp only [TimerStop.step]
+    split <;> simp [hs]
+  | base o =>
+    cases o with
+    | arm k c => exact ⟨hs, Nat.le_refl _⟩
+    | cancel a => exact ⟨hs, Nat.le_refl _⟩
+    | expire a =>
+      simp only [TimerStop.step]
+      split
+      · exact ⟨hs, Nat.le_refl _⟩
+      · rename_i hso
+        refine ⟨hs, ?_⟩
+        have hne : m ≠ s.base.owner a := by
+          intro he; rw [← he] at hso; exact hso hs
+        simp only [backlogAndRan, ranOn, TimerObj.step]
+        split
+        · simp [hne]
+        · exact Nat.le_refl _
+    | doNext k =>
+      refine ⟨hs, ?_⟩
+      simp only [TimerStop.step, TimerObj.step, backlogAndRan, ranOn]
+      split
+      · exact Nat.le_refl _
+      · rename_i a rest hq
+        by_cases hk : m = k
+        · subst hk
+          split <;> simp [hq, List.filter_append] <;> omega
+        · have hk' : (k == m) = false := by simp; exact fun h => hk h.symm
+          split <;> simp [hk, hk', List.filter_append]
+
+theorem timer_stop_run (ops : List TimerStop.Op) (m : Nat) : ∀ s : TimerStop.St, s.stopped m = true →
+    (TimerStop.run s ops).stopped m = true ∧ backlogAndRan (TimerStop.run s ops) m ≤ backlogAndRan s m := by
+  induction ops with
+  | nil => intro s hs; exact ⟨hs, Nat.le_refl _⟩
+  | cons o os ih =>
+    intro s hs
+    obtain ⟨h1, h2⟩ := timer_stop_step s o m hs
+    obtain ⟨h3, h4⟩ := ih _ h1
+    exact ⟨h3, Nat.le_trans h4 h2⟩
+
+/-- **a stopped manager runs at most its backlog**: after `Stop` of manager `m`, for every further sequence of arming,
+expiry, cancellation, queue processing and stops on any managers, the number of callbacks the loop of `m` runs grows by
+no more than the number of objects that waited in its queue when it was stopped. -/
+theorem stopped_mgr_runs_only_backlog (pre post : List TimerStop.Op) (m : Nat) :
+    ranOn (TimerStop.run (TimerStop.run {} (pre ++ [.stopMgr m])) post) m ≤
+      ranOn (TimerStop.run {} (pre ++ [.stopMgr m])) m + ((TimerStop.run {} (pre ++ [.stopMgr m])).base.queue m).length := by
+  have hst : (TimerStop.run {} (pre ++ [.stopMgr m])).stopped m = true := by
+    simp [TimerStop.run, List.foldl_append, TimerStop.step]
+  have := (timer_stop_run post m _ hst).2
+  simp only [backlogAndRan] at this
+  omega
+
+/-- **timers that become due on a stopped manager never run**: if the queue of `m` is empty when it is stopped, its
+loop runs no callback ever after, whatever is armed, expires or is processed (the `stop … tmr=n` op of the harness). -/
+theorem stopped_mgr_runs_nothing (pre post : List TimerStop.Op) (m : Nat)
+    (hq : (TimerStop.run {} (pre ++ [.stopMgr m])).base.queue m = []) :
+    ranOn (TimerStop.run (TimerStop.run {} (pre ++ [.stopMgr m])) post) m ≤ ranOn (TimerStop.run {} (pre ++ [.stopMgr m])) m := by
+  have := stopped_mgr_runs_only_backlog pre post m
+  rw [hq] at this
+  simpa using this
+
+/-- non-vacuity: two timers armed, the manager stopped, both expire and the loop looks at its queue — nothing ran;
+without the stop both run -/
+example : ranOn (TimerStop.run {} [.base (.arm 0 7), .base (.arm 0 8), .stopMgr 0, .base (.expire 0), .base (.doNext 0),
+    .base (.expire 1), .base (.doNext 0)]) 0 = 0 := by decide
+example : ranOn (TimerStop.run {} [.base (.arm 0 7), .base (.arm 0 8), .base (.expire 0), .base (.doNext 0),
+    .base (.expire 1), .base (.doNext 0)]) 0 = 2 := by decide
+/-- an object that expired BEFORE the stop may still run (the loop drains until it sees the close signal): the bound is tight -/
+example : ranOn (TimerStop.run {} [.base (.arm 0 7), .base (.expire 0), .stopMgr 0, .base (.doNext 0)]) 0 = 1 := by decide
+
+/-- the `AfterFunc` closure of a design that runs a due one-shot timer of a stopped manager itself (`m.Do(t)` on the
+runtime's timer goroutine, "do not swallow the continuation"): the callback of object `a` starts on producer thread `p` -/
+def inlineExpiry (tr : List Cell2v.Loop.Ev) (p a : Nat) : List Cell2v.Loop.Ev := tr ++ [.start (.producer p) a, .stop (.producer p) a]
+
+/-- witness: while the consumer is still inside a piece (the loop does not wait for `Stop`), such an expiry puts a
+second piece of the service's code in progress, on a foreign thread: the monitor predicate fails -/
+theorem stopped_mgr_inline_expiry_breaks_serial :
+    Cell2v.Loop.Serial (inlineExpiry [.start .consumer 0] 1 5) = false ∧ Cell2v.Loop.Serial [.start .consumer 0, .stop .consumer 0] = true := by decide
+end TimerStop
+
+/-! ## completion callbacks of requests on the loop -/
+section ReqDone
+open Cell2v.ReqDone
+
+/-- the schedule is enabled from every state with an idle consumer and empty mailbox / timer queue; it ends in such a state -/
+theorem request_sched_enabled (cap : Nat) (hcap : 1 ≤ cap) (fs : List Fate) :
+    ∀ (j : Nat) (s : St), s.running = none → s.q 1 = [] → s.q 2 = [] → ∃ s', runL cap false s (ReqDone.sched j fs) = some s' := by
+  have hc : 0 < cap := hcap
+  induction fs with
+  | nil => intro j s _ _ _; exact ⟨s, rfl⟩
+  | cons f fs ih =>
+    intro j s h0 h1 h2
+    cases f with
+    | answered p =>
+      simp only [ReqDone.sched]
+      rw [runL_append]
+      have : ∃ s1, runL cap false s [.enq p 1 (j + 1), .pick 1, .finish] = some s1 ∧ s1.running = none ∧ s1.q 1 = [] ∧ s1.q 2 = [] := by
+        simp [runL, fire, h0, h1, h2, setQ, hc]
+      obtain ⟨s1, e1, r0, r1, r2⟩ := this
+      rw [e1]; exact ih _ s1 r0 r1 r2
+    | selfAnswered p =>
+      simp only [ReqDone.sched]
+      rw [runL_append]
+      have : ∃ s1, runL cap false s [.enq p 1 0, .pick 1, .henq 1 (j + 1), .finish, .pick 1, .finish] = some s1 ∧
+          s1.running = none ∧ s1.q 1 = [] ∧ s1.q 2 = [] := by
+        simp [runL, fire, h0, h1, h2, setQ, hc]
+      obtain ⟨s1, e1, r0, r1, r2⟩ := this
+      rw [e1]; exact ih _ s1 r0 r1 r2
+    | deadLetter p t =>
+      simp only [ReqDone.sched]
+      rw [runL_append]
+      have : ∃ s1, runL cap false s [.pstep p, .enq t 2 (j + 1), .pick 2, .finish] = some s1 ∧ s1.running = none ∧ s1.q 1 = [] ∧ s1.q 2 = [] := by
+        simp [runL, fire, h0, h1, h2, setQ, hc]
+      obtain ⟨s1, e1, r0, r1, r2⟩ := this
+      rw [e1]; exact ih _ s1 r0 r1 r2
+    | silent t =>
+      simp only [ReqDone.sched]
+      rw [runL_append]
+      have : ∃ s1, runL cap false s [.enq t 2 (j + 1), .pick 2, .finish] = some s1 ∧ s1.running = none ∧ s1.q 1 = [] ∧ s1.q 2 = [] := by
+        simp [runL, fire, h0, h1, h2, setQ, hc]
+      obtain ⟨s1, e1, r0, r1, r2⟩ := this
+      rw [e1]; exact ih _ s1 r0 r1 r2
+
+/-- **request completions run on the loop**: for every list of requests and whatever becomes of each of them — answered
+by any goroutine, answered by the requester itself, turned into a dead letter on any goroutine, or never answered — and
+every capacity ≥ 1, the induced schedule is a schedule of the loop model, its trace satisfies the monitor predicate and
+every completion callback is started by the consumer (the ops `relay`, `selfreq` and the `req` / `tmo` streams of a burst). -/
+theorem request_completion_on_loop (cap : Nat) (hcap : 1 ≤ cap) (fs : List Fate) :
+    ∃ s, runL cap false init (ReqDone.sched 0 fs) = some s ∧ Serial s.trace = true ∧
+      ∀ w it, Ev.start w it ∈ s.trace → w = Thread.consumer := by
+  obtain ⟨s, es⟩ := request_sched_enabled cap hcap fs 0 init rfl rfl rfl
+  have hr : Reachable cap s := ⟨ReqDone.sched 0 fs, es⟩
+  exact ⟨s, es, (handlers_serial cap s hr).2.2, fun w it h => handlers_only_on_consumer cap s hr w it (Or.inl h)⟩
+
+/-- non-vacuity: an answered request, a dead letter on goroutine 4 and a self-request: callbacks 1, 2, 3 (and the handler
+piece 0 of the self-request) start on the consumer -/
+example : (runL 1 false init (ReqDone.sched 0 [.answered 3, .deadLetter 4 9, .selfAnswered 5])).map
+    (fun s => s.trace.filterMap fun e => match e with | .start w it => some (w, it) | _ => none) =
+    some [(Thread.consumer, 1), (Thread.consumer, 2), (Thread.consumer, 0), (Thread.consumer, 3)] := by decide
+
+/-- witness: the design that completes a request at once from the dead-letter notification (the subscriber of the
+actor system's event stream runs on the publisher's goroutine and calls the completion callback there) is not serial
+when the requester is inside a piece at that moment -/
+theorem dead_letter_inline_completion_breaks_serial :
+    ∃ ls s, runL 2 true init ls = some s ∧ Serial s.trace = false :=
+  ⟨[.enq 5 0 0, .pick 0, .direct 4 1], _, rfl, by decide⟩
+end ReqDone
+
 /-! ## which loop drains which scheduler (`sche.Mgr.GetSche` by name) -/
 section ScheReg
 open Cell2v.ScheReg
